@@ -123,7 +123,7 @@ reg("C02", "other",
 
 reg("C03", "other",
     [PN.s_panic_decode, PN.s_loop, PN.s_alloc, C.s_unsafe, C.h_utf8, PL.g_dispatch, PL.h_cap, PL.h_pending, T.t_varint_readers,
-     B.l_consume, P.l_propdec, PL.s_persist, P3.t_prims],
+     B.l_consume, P.l_propdec, PL.s_persist, P3.t_prims, T.t_width],
     "Site audit over the call-graph closure of all decoder entry points: every panic-capable site (arithmetic on unsigned "
     "integers, indexing incl. Index-trait calls, unwrap/expect, explicit panics) is discharged by a dominating-guard rule or a named "
     "table entry with a reason (the table entries are reviewed, not proved); every loop matches a progress pattern (counter loops are "
@@ -218,7 +218,7 @@ reg("C10", "other",
 
 reg("C11", "other",
     [L.l_eq, B.l_cover, T.t_bij, PN.s_panic_encode, T.t_width, C.h_ctor, P.l_propdec, P.h_proplen, B.t_bits, L.t_ctl, P3.h_shortform,
-     TR.l_trace, P3.t_prims, T.t_proto, P.t_prop3, P.h_bytevals, IO.h_async1, IO.s_writers, T.t_varint_writer, D.h_hdr1, D.h_dispatch3, P.t_props_whole, P.t_props_encvalues, IO.s_collect, P3.l_entries, P3.h_reason_bytes],
+     TR.l_trace, P3.t_prims, T.t_proto, P.t_prop3, P.h_bytevals, IO.h_async1, IO.s_writers, T.t_varint_writer, D.h_hdr1, D.h_dispatch3, P.t_props_whole, P.t_props_encvalues, IO.s_collect, P3.l_entries, P3.h_reason_bytes, T.t_varint_readers],
     "NOT decided: the runtime round trip over accepted byte strings. Decided (necessary): the encoder is length-exact on every "
     "value a decoder can construct, not only canonical ones (L-eq quantifies over all atom assignments); every length-bearing "
     "field is written whenever present, depending only on itself (L-cover); every enum value a from_u8 table returns is written "
@@ -293,7 +293,7 @@ reg("C18", "proof",
 
 reg("C20", "other",
     [RA.h_raise, RA.h_order, B.l_precharge, P3.h_erreq, C.h_protoread, T.t_tname, T.t_flen, P.t_props, P.t_props_whole, P.h_proplen, P.h_dup, P.h_bytevals, D.h_dispatch3, PL.h_exactfill, D.h_block,
-     IO.h_noswallow, T.t_codes, B.h_checked_sub, B.t_bits, C.h_utf8],
+     IO.h_noswallow, T.t_codes, B.h_checked_sub, B.t_bits, C.h_utf8, T.t_varint_readers],
     "NOT decided: that a given byte-level malformation of a given packet reaches the site the catalogue names (path feasibility "
     "over inputs). Decided: every raise site carries the value its guard tested (H-raise payload rule), each documented variant is "
     "raised only where the catalogue places it and the mandatory sites exist (placement, floors), unknown reason bytes become "
